@@ -52,6 +52,12 @@ def gen_world(rng):
     for letter in rng.sample(letters, rng.randint(1, 2)):
         ln = rng.choice([1, 2, 3, 4])
         dims.append({"letter": letter, "name": NAMES[letter] + "Twin", "items": [f"{letter}{k}w" for k in range(ln)], "dtype": "str"})
+    if rng.chance(0.3):
+        # two dimensions with the same name but different letters (e.g. origin and destination region)
+        free = [l for l in "abcdet" if l not in letters]
+        if free:
+            src = rng.choice(dims[:n])
+            dims.append({"letter": free[0], "name": src["name"], "items": [f"{free[0]}{k}n" for k in range(rng.randint(1, 4))], "dtype": "str"})
     return {"dims": dims, "cap": 8}
 
 
@@ -263,6 +269,8 @@ class DimSim(Engine):
             return ("raise", e)
 
     def _key(self, st, idx, form):
+        if st.NAME.count(st.NAME[idx]) > 1:
+            return st.LET[idx]  # two dimensions of the universe share this name (origin / destination): only the letter identifies it
         return st.LET[idx] if form == "letter" else st.NAME[idx]
 
     def _finish_oop(self, st, op, out, expected, clause, what, operands, loose=()):
@@ -481,7 +489,10 @@ class DimSim(Engine):
                 "add": (lambda: L + R, "RAISE" if inter else union, "plus-overlap"),
             }
             th, exp, clause = table[f]
-            loose = tuple(st.LET[i] for i in ML for j in MR if st.LET[i] == st.LET[j] and i != j)
+            # same letter, different dimension in the two operands: a union consists of the left set plus the right set's *new*
+            # dimensions, so the left one stays; for the intersection the property does not say whose object is kept
+            loose = () if f in ("or", "union_with", "add", "xor") else \
+                tuple(st.LET[i] for i in ML for j in MR if st.LET[i] == st.LET[j] and i != j)
             out = self._call(st, th)
             self._finish_oop(st, op, out, exp, clause, f"{''.join(letL)} {f} {''.join(letR)}", operands, loose)
             return
@@ -579,7 +590,7 @@ class DimSim(Engine):
             if real.ndim != len(model) or len(real) != len(model) or bool(real) != (len(model) > 0):
                 bad("ndim/len/bool")
             for pos, i in enumerate(model):
-                for key in (st.LET[i], st.NAME[i]):
+                for key in ((st.LET[i], st.NAME[i]) if names.count(st.NAME[i]) == 1 else (st.LET[i],)):
                     if dim_sig(real[key]) != st.SIG[i]:
                         bad(f"[{key!r}] returned another dimension")
                     if real.index(key) != pos:
